@@ -228,3 +228,94 @@ func gmReconnectUnit(suite uint16, depth int) harness.Unit {
 		c.Sample(fmt.Sprintf("GMSSL %04x, client authentication: every sequence up to length %d over {connect, rotate keeping / dropping the old key, next ClientAuth policy}", suite, depth))
 	}}
 }
+
+// autoReconnectUnit: ONE auto-switch server Config (GMSSL and TLS on one listener, one set of ticket
+// keys) serving a GMSSL client and a TLS 1.2 client, each with its own session cache; every sequence of
+// {connect as GMSSL, connect as TLS, rotate the ticket keys keeping / dropping the old key}. Every
+// connection completes - resumed or, when the ticket is no longer accepted, by a full handshake - and
+// both ends agree on version, suite, resumption and keying material.
+func autoReconnectUnit(depth int) harness.Unit {
+	return harness.Unit{Name: fmt.Sprintf("reconnect/auto-switch/depth%d", depth), Run: func(c *harness.Ctx) {
+		p := tlsk.Get()
+		opName := []string{"connect(GMSSL client)", "connect(TLS 1.2 client)", "rotate ticket keys (old key kept)", "rotate ticket keys (old key dropped)"}
+		var seqs [][]int
+		var rec func(cur []int)
+		rec = func(cur []int) {
+			if len(cur) > 0 && cur[len(cur)-1] < 2 {
+				seqs = append(seqs, append([]int{}, cur...))
+			}
+			if len(cur) == depth {
+				return
+			}
+			for op := 0; op < 4; op++ {
+				rec(append(cur, op))
+			}
+		}
+		rec(nil)
+		app := [2]tlsk.App{{Writes: [][]byte{[]byte("c->s")}, Expect: 4}, {Writes: [][]byte{[]byte("s->c")}, Expect: 4}}
+		for _, sq := range seqs {
+			sc, err := gmtls.NewBasicAutoSwitchConfig(&p.Sign, &p.Enc, &p.ECDSA)
+			if err != nil {
+				c.Violate("reconnect:auto-switch-setup", err.Error(), nil, nil)
+				return
+			}
+			sc.Time, sc.Rand = tlsk.FixedTime, wire.NewRand(11)
+			keys := [][32]byte{{1}}
+			sc.SetSessionTicketKeys(keys)
+			gmc := &gmtls.Config{GMSupport: &gmtls.GMSupport{}, RootCAs: p.Roots, ServerName: tlsk.ServerName, Time: tlsk.FixedTime, Rand: wire.NewRand(22), ClientSessionCache: gmtls.NewLRUClientSessionCache(2)}
+			tlc := &gmtls.Config{RootCAs: p.StdRootsG, ServerName: tlsk.ServerName, Time: tlsk.FixedTime, Rand: wire.NewRand(23), MinVersion: 0x0303, MaxVersion: 0x0303, ClientSessionCache: gmtls.NewLRUClientSessionCache(2)}
+			hist := ""
+			for i, op := range sq {
+				hist += opName[op] + "; "
+				if op >= 2 {
+					nk := [32]byte{byte(10 + i)}
+					if op == 2 {
+						keys = append([][32]byte{nk}, keys...)
+					} else {
+						keys = [][32]byte{nk}
+					}
+					sc.SetSessionTicketKeys(keys)
+					continue
+				}
+				cc := gmc
+				if op == 1 {
+					cc = tlc
+				}
+				var cv, sv tlsk.View
+				o := tlsk.Run(tlsk.GMEnd(cc, true, app[0], &cv, nil), tlsk.GMEnd(sc, false, app[1], &sv, nil), &cv, &sv, nil)
+				if i != len(sq)-1 {
+					continue
+				}
+				label := "auto-switch server: " + hist
+				key := "auto:" + hist
+				c.Add("executions", 1)
+				c.Add("transitions", int64(len(sq)))
+				c.DistinctS("states", label)
+				c.DistinctS("outcomes", fmt.Sprintf("c=%v s=%v resumed=%v/%v", o.C.Complete, o.S.Complete, o.C.DidResume, o.S.DidResume))
+				if o.C.Panic != nil || o.S.Panic != nil {
+					c.Violate("reconnect:panic:"+panicSite(o.C.Stack+o.S.Stack), fmt.Sprintf("[%s] endpoint panicked: client=%v server=%v\n%s", label, o.C.Panic, o.S.Panic, clip(o.C.Stack+o.S.Stack, 1500)), nil, label)
+					continue
+				}
+				if len(o.Stuck) > 0 || o.Horizon {
+					c.Violate("reconnect:hang:"+key, fmt.Sprintf("[%s] endpoints did not finish: %v", label, o.Stuck), nil, label)
+					continue
+				}
+				if !o.C.Complete || !o.S.Complete {
+					c.Violate("reconnect:fails:"+key, fmt.Sprintf("[%s] a correctly configured pair must complete every connection: %s", label, o.Describe()), nil, label)
+					continue
+				}
+				wantV := uint16(0x0101)
+				if op == 1 {
+					wantV = 0x0303
+				}
+				if o.C.Version != wantV || o.C.Version != o.S.Version || o.C.Suite != o.S.Suite || o.C.DidResume != o.S.DidResume || !bytes.Equal(o.C.EKM, o.S.EKM) {
+					c.Violate("reconnect:views-differ:"+key, fmt.Sprintf("[%s] %s", label, o.Describe()), nil, label)
+				}
+				if !bytes.Equal(o.S.Read, []byte("c->s")) || !bytes.Equal(o.C.Read, []byte("s->c")) {
+					c.Violate("reconnect:data:"+key, fmt.Sprintf("[%s] %s", label, o.Describe()), nil, label)
+				}
+			}
+		}
+		c.Sample(fmt.Sprintf("auto-switch server, GMSSL and TLS 1.2 clients with session caches: every sequence up to length %d over {connect GMSSL, connect TLS, rotate keeping / dropping the old key}", depth))
+	}}
+}
